@@ -25,6 +25,11 @@ the two sides are compared up to ring normalisation (also under `^`, `logb`, `Ga
 macro "sn_norm" : tactic =>
   `(tactic| (norm_num <;> first | done | ring_nf | (congr 1 <;> ring_nf)))
 
+/-- Same for the comparison masks `decide (a ≤ b) = decide (a' ≤ b')`: equal up to linear-arithmetic
+normalisation of the two inequalities. -/
+macro "sn_mask_norm" : tactic =>
+  `(tactic| (refine decide_eq_decide.2 ⟨fun h => ?_, fun h => ?_⟩ <;> first | exact h | linarith))
+
 theorem loga2_eq (loga1 m1 m2 nswitch : ℝ) :
     sn_loga2 loga1 m1 m2 nswitch = m2 / m1 * loga1 + (1 - m2 / m1) * Real.logb 10 nswitch := by
   simp only [sn_loga2, log10_real]; sn_norm
@@ -50,21 +55,26 @@ theorem strength_eq (loga m n tc : ℝ) :
   simp only [sn_strength, log10_real, rpow_real]; sn_norm
 
 theorem mask_eq (s sswitch tc : ℝ) : sn_mask s sswitch tc = decide (sswitch ≤ s * tc) := by
-  simp only [sn_mask, ge_iff_le]
+  unfold sn_mask; sn_mask_norm
 
 theorem strength_mask_eq (n nswitch : ℝ) : sn_strength_mask n nswitch = decide (n ≤ nswitch) := by
-  simp only [sn_strength_mask]
+  unfold sn_strength_mask; sn_mask_norm
 
+set_option linter.unusedTactic false in
+set_option linter.unreachableTactic false in
 theorem tcorr_formula_eq (t te tr : ℝ) : sn_tcorr t te tr = (t / tr) ^ te := by
   simp only [sn_tcorr, rpow_real]
+  all_goals sn_norm
 
 theorem tcorr_mask_eq (t tr : ℝ) : sn_tcorr_mask t tr = decide (t < tr) := by
-  simp only [sn_tcorr_mask]
+  unfold sn_tcorr_mask; sn_mask_norm
 
 theorem mw_single_eq (a1 h m1 q td v0 : ℝ) :
     sn_mw_single a1 h m1 q td v0 = v0 * td * (q ^ m1 / a1) * Real.Gamma (1 + m1 / h) := by
   simp only [sn_mw_single, gamma_real, rpow_real]; sn_norm
 
+set_option linter.unusedTactic false in
+set_option linter.unreachableTactic false in
 theorem gh_eq (m r uts : ℝ) : gh_corrected m r uts = r * (uts / (uts - m)) := by
   simp only [gh_corrected]
   all_goals sn_norm
